@@ -219,15 +219,7 @@ func runC15(ctx *runCtx) {
 		sem <- struct{}{}
 		go func(i int) {
 			defer func() { <-sem }()
-			sh, w := "", ""
-			func() {
-				defer func() {
-					if r := recover(); r != nil {
-						sh, w = "panic", fmt.Sprint(r)
-					}
-				}()
-				sh, w = runPingCase(pcs[i])
-			}()
+			sh, w := guarded(30*time.Second, func() (string, string) { return runPingCase(pcs[i]) })
 			out <- res{i, sh, w}
 		}(i)
 	}
